@@ -7,7 +7,9 @@ A case is a self-contained JSON value
      "inputs": {"In1": v, "In2": v, "Temp": v}     constant hardware inputs,
      "ops":    [[i, "user", name] | [i, "inject", [[kind, n], ...]] | [i, "cancel", k, pool], ...]
                applied before the i-th tick after the Start tick (i = 0, 1, ...),
-     "n_ticks": number of ticks after the Start tick}
+     "n_ticks": number of ticks after the Start tick,
+     "overlaps": optional further overlap declarations of the unit, e.g. [["OvA", "Slow"]] (the harness unit declares
+               ["OvA", "OvB"]; with_command_overlap may be called several times and a command may be in several lists)}
 
 * user    : engine.execute_control_command_from_user(name) - what ExecuteControlCommandMsg does (ValueError = rejected)
 * inject  : engine.inject_code(text) - what InjectCodeMsg does; the snippet is structured ([kind, n] per line) so that the
@@ -41,7 +43,8 @@ SNIP = {"slow": "Slow: %d", "ova": "OvA: %d", "ovb": "OvB: %d", "quick": "Quick:
 SNIP_MIN = {"slow": 1, "ova": 1, "ovb": 1, "wait": 1, "pause": 1, "hold": 1}
 SNIP_MAX = {"wait": 9, "pause": 9, "hold": 9}
 POOLS = ["alive", "runlog"]
-OVERLAP_GROUPS = [("OvA", "OvB")]
+OVERLAP_GROUPS = [("OvA", "OvB")]          # declared by the harness unit (engine_h.build_uod)
+OVERLAP_NAMES = ("Slow", "OvA", "OvB", "Quick", "Set1", "Set2", "Set3")   # names a case may put into extra overlap lists
 MAX_TICKS = 400
 
 CFG_CMD = G.GenCfg(kinds={"slow": 5, "ova": 3, "ovb": 3, "quick": 2, "set": 1, "mark": 3, "wait": 3, "pause": 2, "hold": 2,
@@ -126,6 +129,11 @@ def valid(case) -> bool:
         inp = case.get("inputs", {})
         if not isinstance(inp, dict) or any(k not in ("In1", "In2", "Temp") or isinstance(v, bool) or
                                             not isinstance(v, (int, float)) for k, v in inp.items()):
+            return False
+        for ol in case.get("overlaps", []):
+            if not (isinstance(ol, list) and len(ol) >= 2 and len(set(ol)) == len(ol) and all(n in OVERLAP_NAMES for n in ol)):
+                return False
+        if not isinstance(case.get("overlaps", []), list) or len(case.get("overlaps", [])) > 4:
             return False
         for op in case.get("ops", []):
             if not isinstance(op, list) or len(op) < 3 or not isinstance(op[0], int) or isinstance(op[0], bool) or op[0] < 0:
@@ -249,6 +257,15 @@ def group_of(name: str) -> str:
     return name
 
 
+def overlap_lists(case) -> list:
+    return [list(g) for g in OVERLAP_GROUPS] + [list(ol) for ol in case.get("overlaps", [])]
+
+
+def conflicting(a: str, b: str, lists) -> bool:
+    """same command, or both named in one overlap declaration"""
+    return a == b or any(a in ol and b in ol for ol in lists)
+
+
 def run_case(case) -> Trace:
     tr = Trace()
     lines = render(case["tree"])
@@ -272,11 +289,22 @@ def run_case(case) -> Trace:
             tr.stops.append(rec)
 
     e.emitter.add_listener(StopSpy())
+    # further overlap declarations of the unit: the state UodBuilder.with_command_overlap(names) produces when it is called
+    # once more per list (a command may be a member of several lists)
+    for ol in case.get("overlaps", []):
+        h.uod.overlapping_command_names_lists.append(list(ol))
     orig_cancel_all = e.cancel_all_commands
 
     def spy_cancel_all(source_command_name: str):
         # position marker: everything that starts after this point starts after Stop/Restart cancelled the running commands
-        h.events.append((h.tick_no, "cancel_all", source_command_name))
+        # how the Stop/Restart was delivered: "user" = execute_control_command_from_user (ExecuteControlCommandMsg),
+        # "code" = scheduled by the interpreter (method line, Watch/Alarm body, injected code)
+        running = e.registry.get_running_command(source_command_name)
+        reqs = [r for r in e._command_manager.cmd_executing if r.name == source_command_name]
+        own = [r for r in reqs if running is not None and r.instance_id == running.instance_id]
+        src = (own or reqs)[0].source if reqs else None
+        delivery = "user" if src == "user" else ("code" if src == "@interpreter" else "unknown")
+        h.events.append((h.tick_no, "cancel_all", source_command_name, delivery))
         return orig_cancel_all(source_command_name)
     e.cancel_all_commands = spy_cancel_all   # type: ignore
     h.set_inputs(**{k: float(v) for k, v in case.get("inputs", {}).items()})
@@ -399,4 +427,4 @@ def effects(tr: Trace, from_tick: int, n: int) -> list:
 
 
 __all__ = ["CFG_CMD", "cfg_with", "programs", "INPUTS", "snippet", "snippet_text", "valid", "render", "run_case", "Trace",
-           "instances", "group_of", "runs_of", "effects", "USER_OPS", "SNIP", "POOLS"]
+           "instances", "group_of", "overlap_lists", "conflicting", "runs_of", "effects", "USER_OPS", "SNIP", "POOLS"]
